@@ -1,6 +1,6 @@
 /-
 C15 — rebinning and resampling conserve counts and physical positions: the property theorems.
-Proofs are in `ProofsSSRB`, `ProofsGroup`, `ProofsData`, `ProofsTof`, `ProofsBins`, `ProofsTotal`, `ProofsPhi`, `ProofsZoom`, `ProofsInverse`, `ProofsViewgram`; this file only states them.
+Proofs are in `ProofsSSRB`, `ProofsGroup`, `ProofsData`, `ProofsTof`, `ProofsBins`, `ProofsTotal`, `ProofsPhi`, `ProofsZoom`, `ProofsInverse`, `ProofsViewgram`, `ProofsIdentity`; this file only states them.
 
 Units: axial coordinate `m` in quarter ring spacings (`Seg.m4`), TOF positions in unmashed TOF bins, image coordinates in `ℚ`.
 -/
@@ -12,6 +12,7 @@ import StirVerif.C15.ProofsPhi
 import StirVerif.C15.ProofsZoom
 import StirVerif.C15.ProofsInverse
 import StirVerif.C15.ProofsViewgram
+import StirVerif.C15.ProofsIdentity
 
 namespace StirVerif.C15
 open StirVerif.C01 Finset
@@ -22,7 +23,14 @@ The theorems of this section are about `ssrbInfo` (`SSRB(ProjDataInfo, …)`) an
 The third overload, `SSRB(output_filename, in, num_segments_to_combine, …, do_norm, max_in_segment_num_to_process, num_tof_bins_to_combine)`
 (SSRB.cxx:144-163), is their composition — `ssrbData pin pout` with `ssrbInfo pin … = some pout` — which is exactly the hypothesis
 `hinfo` of `C15_ssrb_commutes_with_binning`, `C15_ssrb_targets_exact`, `C15_ssrb_conserves_total`; the correspondence run answers the
-`ssrbdata` operation a second time from the file that overload writes. -/
+`ssrbdata` operation a second time from the file that overload writes.
+
+All theorems of this section hold for every legal argument list, in particular for the IDENTITY-LIKE ones (`num_segments_to_combine = 1`,
+`num_views_to_combine = 1`, `num_tang_poss_to_trim = 0`, `num_tof_bins_to_combine = 1`, one at a time or all together) and for geometries
+with a single segment and / or a single axial position per segment (one ring; direct sinograms only; span 1 with all ring differences;
+all ring differences in one segment): since round 3 the correspondence run drives the real `SSRB` overloads with exactly these argument
+lists and geometries (harness `run_ssrb_identity_like`, `gen_degenerate_cfg`), so the code these theorems are tied to now includes those
+paths; what the identity-like settings mean for the result is stated separately below (`C15_ssrb_identity_*`). -/
 
 /-- "puts the counts of every detector pair into the bin that the output geometry assigns to that pair" — the axial coordinate:
     in any segment whose axial positions sit on the physical rings, the `m` of the axial position assigned to ring pair `(r1, r2)`
@@ -142,6 +150,52 @@ theorem C15_ssrb_phi_mean (offIn sampIn : ℚ) (W : ℤ) (k : ℕ) (hW : 0 < W) 
       = (∑ j ∈ range k, (offIn + ((ov * k + j : ℤ) : ℚ) * sampIn)) / k :=
   ssrb_phi_mean offIn sampIn W k hW hk ov
 
+/-! ### identity-like settings are the identity
+
+"total counts are conserved when no range is trimmed" / "puts the counts of every detector pair into the bin that the output geometry
+assigns to that pair" in the degenerate case where nothing is combined and nothing is trimmed: the output geometry IS the input geometry
+and every bin comes back.  One argument at a time: the part of the geometry whose argument is at its identity value is unchanged whatever
+the other arguments are (the harness evaluates the same statements on the implementation for every `ssrbinfo` / `ssrbdata` operation). -/
+
+/-- identity-like settings ONE AT A TIME, for any successful call `SSRB(p, kSeg, kView, trim, maxSeg, kTof) = o`:
+    scanner data are kept; `num_segments_to_combine = 1` ⇒ every output segment is the input segment of the same number, unchanged
+    (ring differences, number of axial positions) — and with all segments processed the segment table is the input's;
+    `num_views_to_combine = 1` ⇒ the number of views is kept; `num_tang_poss_to_trim = 0` ⇒ a centred tangential range is kept;
+    `num_tof_bins_to_combine = 1` ⇒ TOF mashing factor and TOF range are kept. -/
+theorem C15_ssrb_identity_settings (p o : PDI) (kSeg kView trim maxSegArg kTof : Int)
+    (h : ssrbInfo p kSeg kView trim maxSegArg kTof = some o) :
+    (o.N = p.N ∧ o.R = p.R ∧ o.T = p.T) ∧
+    (kSeg = 1 → ∀ os og, o.seg? os = some og → p.seg? os = some og) ∧
+    (kSeg = 1 → maxSegArg = -1 → p.minSeg = -p.maxSeg → o.minSeg = p.minSeg ∧ o.segs = p.segs) ∧
+    (kView = 1 → o.numViews = p.numViews) ∧
+    (trim = 0 → p.minTang = -(p.numTang.tdiv 2) → o.minTang = p.minTang ∧ o.maxTang = p.maxTang) ∧
+    (kTof = 1 → o.tofMash = p.tofMash ∧ o.minTof = p.minTof ∧ o.maxTof = p.maxTof) :=
+  ssrbInfo_identity_settings p o kSeg kView trim maxSegArg kTof h
+
+/-- the full identity request `SSRB(p, 1, 1, 0, -1, 1)` succeeds and returns the input geometry — for every geometry with segments
+    `-S … S` (`S ≥ 0`: also a single segment), any numbers of axial positions (also a single one), a non-empty centred tangential range -/
+theorem C15_ssrb_identity_geometry (p : PDI) (hsym : p.minSeg = -p.maxSeg) (hseg : 0 ≤ p.maxSeg) (hnt : 0 < p.numTang)
+    (hc : p.minTang = -(p.numTang.tdiv 2)) : ssrbInfo p 1 1 0 (-1) 1 = some p :=
+  ssrbInfo_identity p hsym hseg hnt hc
+
+/-- … and the azimuthal angles (offset, sampling) of the views are kept when one view is "combined" -/
+theorem C15_ssrb_identity_phi (off samp : ℚ) (V : Int) (hV : V ≠ 0) : ssrbPhi off samp V 1 = (off, samp) :=
+  ssrbPhi_identity off samp V hV
+
+/-- **identity-like settings must be the identity, bin by bin**: with the identity request the loops of `SSRB(out, in)` add the bin of
+    every detector pair (inside the ranges of the geometry) into exactly that bin and nowhere else — the data come back as they are.
+    (Well-formed geometry, `N/2 = V·m`; non-TOF, or TOF scanner with an odd mashing factor.) -/
+theorem C15_ssrb_identity_data (p : PDI) (hsym : p.minSeg = -p.maxSeg) (hseg : 0 ≤ p.maxSeg) (hnt : 0 < p.numTang)
+    (hc : p.minTang = -(p.numTang.tdiv 2)) (wf : p.WF)
+    (mIn : Int) (hmash : p.N.tdiv 2 = p.numViews * mIn) (hmIn : 0 < mIn) (hV : 0 < p.numViews)
+    (htof0 : p.tofMash = 0 ∨ (0 < p.tofMash ∧ p.tofMash % 2 = 1 ∧ 0 < p.T))
+    (htr : 0 < p.tofMash ∨ (p.minTof = 0 ∧ p.maxTof = 0))
+    (dp : DetPair) (hv : 0 ≤ (detToViewTang p.N dp.d1 dp.d2).1) (bi : Bin)
+    (hbi : p.toGeom.binForDetPair dp = some bi) (hbir : ∀ sg, p.seg? bi.seg = some sg → 0 ≤ bi.ax ∧ bi.ax < sg.numAx)
+    (hbit : p.minTang ≤ bi.tang ∧ bi.tang ≤ p.maxTang) (hbif : p.minTof ≤ bi.tof ∧ bi.tof ≤ p.maxTof) :
+    targets p p bi = [bi] :=
+  ssrb_identity_targets p hsym hseg hnt hc wf mIn hmash hmIn hV htof0 htr dp hv bi hbi hbir hbit hbif
+
 /-! ### the violation on the unchanged tree (C01's "LORs shifted" geometries): negative witness -/
 
 /-- 16 detectors, 4 rings, span 3, max ring difference 2 (`ProjDataInfo::construct_proj_data_info` builds it with a warning) -/
@@ -231,6 +285,85 @@ theorem C15_zoom_axis_com_bound (n m : ℕ) (inv : ℕ → ℚ) (ilo olo : ℤ) 
       ≤ (vin + vin / zoom) / 2 :=
   zoom_axis_com_bound n m inv ilo olo zoom offset vin hz hv hl hr hpos htot
 
+
+/-! ## `zoom_image`: degenerate requests (zoom exactly 1 and / or no offset along some axes)
+
+`zoomImage3` (`zoom_image(VoxelsOnCartesianGrid& out, in, options)`: behind the one-call 3-D-parameter, in-place and two-step variants),
+`zoomImage2` (`zoom_image(PixelsOnCartesianGrid& out, in, options)`: behind the transaxial one-call and in-place variants) and
+`overlapVec` are compared with the implementation on every operation `zoom 3d|2d|out|pl`; since round 3 the requests include, per axis
+independently, zoom exactly 1 with offset 0 / ≠ 0 and offsets along one axis only, into grids of the same and of another size, with all
+three scalings (harness `run_zoom_degenerate`; operation `zoom pl` drives the transaxial two-step call directly, plane by plane into a
+re-used plane).  Both image functions have a plain-copy shortcut; the theorems below say when it is taken and what a pure shift does. -/
+
+/-- "the result does not depend on [the variant]" / conservation in the simplest case: zooming an image onto its own grid gives back
+    the voxel values, with every `ZoomOptions` scaling (3-D two-step call; any non-zero voxel sizes) -/
+theorem C15_zoom_image_identity (im : Img) (opt : ZoomOpt) (hx : im.g.vx ≠ 0) (hy : im.g.vy ≠ 0) (hz : im.g.vz ≠ 0) :
+    zoomImage3 im.g im opt = im.d :=
+  zoomImage3_identity im opt hx hy hz
+
+/-- the same for the transaxial two-step call on a plane -/
+theorem C15_zoom_image2_identity (g : Grid) (pl : List (List ℚ)) (opt : ZoomOpt) (hx : g.vx ≠ 0) (hy : g.vy ≠ 0) :
+    zoomImage2 g g pl opt = pl :=
+  zoomImage2_identity g pl opt hx hy
+
+/-- and for the transaxial one-call variant `zoom_image(image, 1, 0, 0, x_size, options)` -/
+theorem C15_zoom_image_params2_identity (im : Img) (opt : ZoomOpt) : zoomImageParams2 im 1 0 0 im.g.nx opt = im :=
+  zoomImageParams2_identity im opt
+
+/-- **the plain-copy shortcut of the transaxial `zoom_image` is taken for the identity request only**: if ANY of the two zooms differs
+    from 1, any of the two offsets (x OR y, in voxels of the input) differs from 0, or the index ranges differ, the plane goes through the
+    two `overlap_interpolate` passes — x with `(zoom_x, x_offset)`, then y with `(zoom_y, y_offset)` — and the option scaling.
+    (A shortcut that tests the y condition on the x offset copies planes unshifted when only the y offset is non-zero: round-3 seed.) -/
+theorem C15_zoom_image2_shortcut_only_identity (gout gi : Grid) (pl : List (List ℚ)) (opt : ZoomOpt)
+    (h : fl32 (gi.vx / gout.vx) ≠ 1 ∨ fl32 (gi.vy / gout.vy) ≠ 1 ∨ fl32 (fl32 (gout.ox - gi.ox) / gi.vx) ≠ 0 ∨
+         fl32 (fl32 (gout.oy - gi.oy) / gi.vy) ≠ 0 ∨ gi.ymin ≠ gout.ymin ∨ gi.xmin ≠ gout.xmin ∨ gi.ny ≠ gout.ny ∨ gi.nx ≠ gout.nx) :
+    zoomImage2 gout gi pl opt =
+      let zx := fl32 (gi.vx / gout.vx)
+      let zy := fl32 (gi.vy / gout.vy)
+      let t1 := pl.map (ovl gout.xmin gout.nx gi.xmin zx (fl32 (fl32 (gout.ox - gi.ox) / gi.vx)))
+      let t2 := transpose2 gout.ny ((transpose2 gout.nx t1).map (ovl gout.ymin gout.ny gi.ymin zy (fl32 (fl32 (gout.oy - gi.oy) / gi.vy))))
+      let scale : ℚ := match opt with
+        | 1 => fl32 (zx * zy)
+        | 2 => zy
+        | _ => 1
+      if scale != 1 then t2.map fun row => row.map (· * scale) else t2 :=
+  zoomImage2_not_shortcut gout gi pl opt h
+
+/-- **pure shift** ("keeps the centre of mass in millimetres", exactly): `overlap_interpolate` with zoom exactly 1 and an offset of a whole
+    number `k` of boxes — the pass that every axis of `zoom_image` / every row of `zoom_viewgram` makes for a shift by whole voxels / bins —
+    copies the values: box `i` of the result is box `i + k` of the input (0 outside the input), whatever the two index ranges are.
+    Nothing is blurred, lost inside the new range, or moved by anything but the shift.  (`hfl`: the first index of the output is a float.) -/
+theorem C15_overlap_pure_shift (out inp : Vec) (k : Int) (hfl : fl32 (out.lo : ℚ) = out.lo) :
+    (overlapVec out inp 1 (k : ℚ) true).vals = (List.range out.vals.length).map fun (j : Nat) => inp.get (out.lo + (j : Int) + k) :=
+  overlapVec_pure_shift out inp k hfl
+
+/-- **pure shift of a plane** — the transaxial `zoom_image(PixelsOnCartesianGrid& out, in, options)` (behind
+    `zoom_image(image, zoom, x_offset, y_offset, size)` and its in-place variant) with both zooms exactly 1 and offsets of `kx`, `ky` whole
+    pixels, not both 0 unless the index ranges differ: pixel `(j, c)` of the new plane holds the input pixel at the same position in mm,
+    `(ymin' + j + ky, xmin' + c + kx)`, 0 outside the input — for EVERY `ZoomOptions` scaling (the factor is 1), whatever the two index
+    ranges are.  In particular a shift along y only (`kx = 0`, `ky ≠ 0`, same size) moves every row by exactly `ky`: the centre of mass in
+    mm stays where it is, the plane is not copied unshifted.  (`hflx`, `hfly`: the first indices of the new plane are floats.) -/
+theorem C15_zoom_image2_pure_shift (gout gi : Grid) (pl : List (List ℚ)) (opt : ZoomOpt) (ky kx : Int)
+    (hzx : fl32 (gi.vx / gout.vx) = 1) (hzy : fl32 (gi.vy / gout.vy) = 1)
+    (hxo : fl32 (fl32 (gout.ox - gi.ox) / gi.vx) = kx) (hyo : fl32 (fl32 (gout.oy - gi.oy) / gi.vy) = ky)
+    (hne : ky ≠ 0 ∨ kx ≠ 0 ∨ gi.ymin ≠ gout.ymin ∨ gi.xmin ≠ gout.xmin ∨ gi.ny ≠ gout.ny ∨ gi.nx ≠ gout.nx)
+    (hflx : fl32 (gout.xmin : ℚ) = gout.xmin) (hfly : fl32 (gout.ymin : ℚ) = gout.ymin) :
+    zoomImage2 gout gi pl opt =
+      (List.range gout.ny).map fun (j : Nat) => (List.range gout.nx).map fun (c : Nat) =>
+        planeAt gi pl (gout.ymin + (j : Int) + ky) (gout.xmin + (c : Int) + kx) :=
+  zoomImage2_pure_shift gout gi pl opt ky kx hzx hzy hxo hyo hne hflx hfly
+
+/-- non-vacuity: three boxes −1, 0, 1 holding 1, 2, 3 shifted by one box into the same range: 2, 3 and a zero; into the range 0 … 3: 3, 0, 0, 0 -/
+example : (overlapVec ⟨-1, [7, 7, 7]⟩ ⟨-1, [1, 2, 3]⟩ 1 1 true).vals = [2, 3, 0] ∧
+    (overlapVec ⟨0, [7, 7, 7, 7]⟩ ⟨-1, [1, 2, 3]⟩ 1 1 true).vals = [3, 0, 0, 0] ∧ fl32 ((-1 : Int) : ℚ) = ((-1 : Int) : ℚ) := by decide +kernel
+/-- non-vacuity of the shortcut theorem: a 2 × 2 plane, voxel size 2 mm, the new grid 2 mm further along y only (one voxel): the y offset
+    is 1 voxel, the x offset 0 — the rows move by one, the plane is not copied -/
+example : zoomImage2 { zmin := 0, ymin := -1, xmin := -1, nz := 1, ny := 2, nx := 2, vz := 1, vy := 2, vx := 2, oz := 0, oy := 2, ox := 0 }
+      { zmin := 0, ymin := -1, xmin := -1, nz := 1, ny := 2, nx := 2, vz := 1, vy := 2, vx := 2, oz := 0, oy := 0, ox := 0 } [[1, 2], [3, 4]] 0
+    = [[3, 4], [0, 0]] := by decide +kernel
+/-- … and the hypotheses of `C15_zoom_image2_pure_shift` hold for that request with `ky = 1`, `kx = 0`, preserve_values -/
+example : fl32 ((2 : ℚ) / 2) = 1 ∧ fl32 (fl32 ((0 : ℚ) - 0) / 2) = ((0 : Int) : ℚ) ∧ fl32 (fl32 ((2 : ℚ) - 0) / 2) = ((1 : Int) : ℚ) ∧
+    fl32 ((-1 : Int) : ℚ) = ((-1 : Int) : ℚ) := by decide +kernel
 
 /-! ## `zoom_viewgram` / `zoom_viewgrams` -/
 
@@ -361,6 +494,20 @@ example : exampleIn.toGeom.binForDetPair ⟨3, 0, 11, 3, 0⟩ = some ⟨3, 3, 0,
     exampleOut.toGeom.binForDetPair ⟨3, 0, 11, 3, 0⟩ = some ⟨1, 1, 1, 0, 0⟩ ∧
     0 ≤ (detToViewTang exampleIn.N 3 11).1 ∧
     targets exampleIn exampleOut ⟨3, 3, 0, 0, 0⟩ = [⟨1, 1, 1, 0, 0⟩] := by decide
+
+/-- the identity request on that geometry: the hypotheses of `C15_ssrb_identity_geometry` / `C15_ssrb_identity_data` hold, the geometry and
+    the bin of the detector pair above come back -/
+example : exampleIn.minSeg = -exampleIn.maxSeg ∧ 0 ≤ exampleIn.maxSeg ∧ 0 < exampleIn.numTang ∧
+    exampleIn.minTang = -(exampleIn.numTang.tdiv 2) ∧ ssrbInfo exampleIn 1 1 0 (-1) 1 = some exampleIn ∧
+    targets exampleIn exampleIn ⟨3, 3, 0, 0, 0⟩ = [⟨3, 3, 0, 0, 0⟩] := by decide
+/-- one ring: a single segment with a single axial position; the identity request gives it back, and so does every bin -/
+def exampleOneRing : PDI :=
+  { N := 8, R := 1, T := 0, minSeg := 0, segs := [⟨0, 0, 1⟩], numViews := 4, minTang := -1, maxTang := 1, tofMash := 0, minTof := 0, maxTof := 0 }
+example : ssrbInfo exampleOneRing 1 1 0 (-1) 1 = some exampleOneRing :=
+  C15_ssrb_identity_geometry exampleOneRing (by decide) (by decide) (by decide) (by decide)
+example : exampleOneRing.WF ∧ exampleOneRing.toGeom.binForDetPair ⟨0, 0, 5, 0, 0⟩ = some ⟨0, 1, 0, -1, 0⟩ ∧
+    targets exampleOneRing exampleOneRing ⟨0, 1, 0, -1, 0⟩ = [⟨0, 1, 0, -1, 0⟩] :=
+  ⟨C15_wfb_sound exampleOneRing (by decide), by decide, by decide⟩
 
 /-- ring pair (0, 3) of that geometry: input (seg 3, ax 0), `m = -2`; output (seg 1, ax 1) has `m = -2` too -/
 example : (⟨3, 3, 2⟩ : Seg).axOff 5 = some 3 ∧ (⟨3, 3, 2⟩ : Seg).Exact 3 ∧ (⟨3, 3, 2⟩ : Seg).axOf 3 0 3 = 0 ∧ (⟨3, 3, 2⟩ : Seg).m4 0 = -2 ∧
